@@ -354,6 +354,9 @@ def file_cases(tier, env, limit_bytes=MODEL_FILE_LIMIT):
         name = os.path.basename(p)[:-4]
         if tier == "quick" and name not in QUICK_FILES:
             continue
+        only = os.environ.get("VERIF_GEN_FILES")          # debugging aid: comma separated corpus names
+        if only and name not in only.split(","):
+            continue
         txt = open(p).read()
         if "\n" not in txt:
             continue
